@@ -335,6 +335,64 @@ func Child(seed int64, tier, stateFile string, rounds int, testnet bool) {
 				return
 			}
 		}
+		if r.Intn(2) == 0 {
+			// node restart with the index kept on disk (client/main.go: SaveBalances at exit; at start the configuration is
+			// applied, LoadBalances is tried and the index is built from the unspent set if no matching dump exists).
+			// Before the exit the configured minimum may change (config reload at run time: not applied until the restart),
+			// and blocks may arrive between the save and an unclean exit (the dump on disk is then for another tip).
+			pending := minValue
+			if r.Intn(2) == 0 {
+				pending = []uint64{600, 1000, 1300, 999, 1001}[r.Intn(5)]
+				common.LockCfg()
+				common.CFG.AllBalances.MinValue = pending
+				common.UnlockCfg()
+				run.Inc("min_value_reloaded_while_index_on")
+				if !offer(g.RandomBlock(s.Ref.Tip, 5), "after-config-reload") { // still the old minimum in force
+					return
+				}
+			}
+			common.CFG.AllBalances.SaveBalances = true
+			common.Last.Mutex.Lock()
+			common.Last.Block = s.N.Ch.LastBlock()
+			common.Last.Mutex.Unlock()
+			if er := wallet.SaveBalances(); er != nil {
+				run.Inc("index_save_refused")
+			} else {
+				run.Inc("index_saved_to_disk")
+			}
+			unclean := r.Intn(3) == 0
+			if unclean { // more blocks, then the process dies without saving again
+				if !offer(g.RandomBlock(s.Ref.Tip, 5), "after-index-save") {
+					return
+				}
+				run.Inc("restarts_with_stale_index_dump")
+			}
+			// the new process: empty index, nothing remembered, configuration applied
+			wallet.Disable()
+			wallet.LAST_SAVED_FNAME = ""
+			ck.on = false
+			common.ApplyBalMinVal()
+			minValue = pending
+			run.Distinct("min_values", minValue)
+			common.Last.Mutex.Lock()
+			common.Last.Block = s.N.Ch.LastBlock()
+			common.Last.Mutex.Unlock()
+			if er := wallet.LoadBalances(); er == nil {
+				run.Inc("index_loaded_from_disk")
+				ck.on = true
+				if !ck.check("restart-index-from-disk") {
+					return
+				}
+			} else {
+				run.Inc("index_dump_not_usable_after_restart")
+				if !enable("restart-index-from-utxo") {
+					return
+				}
+			}
+			if !offer(g.RandomBlock(s.Ref.Tip, 6), "after-restart") {
+				return
+			}
+		}
 	}
 	run.Count("reorgs_observed", int64(s.Ref.Reorgs))
 	run.Distinct("addresses_seen", len(ck.seen), seed)
